@@ -46,6 +46,12 @@
 (* parameters) and CUQIarray (funvals / parameters) with explicit content: *)
 (* real actions, a trail of at most MaxOps operations, invariants          *)
 (* FlagsLegal and Lossless; every behaviour is emitted with its content.   *)
+(* Sample sets hold Ns = 1, 2 and 3 samples (Widths); `shp` is the shape   *)
+(* of the array the object holds: per-sample shape, then Ns - the batch    *)
+(* axis is the last one and is never dropped, also for ONE sample          *)
+(* (SamplesShape).  The geometry maps themselves remove the batch axis of  *)
+(* a one-column input (Squeezed): a conversion that hands the whole array  *)
+(* to the map (deviation "batchfast") loses the sample axis at Ns = 1.     *)
 (***************************************************************************)
 EXTENDS Mat, FiniteSets, Json
 
@@ -57,7 +63,7 @@ CONSTANTS MaxN1,       \* ident: n in 1..MaxN1
           MaxOps,      \* conv: length of the trail
           MaxSeq,      \* seq: number of actions of a behaviour
           Dev,         \* "none" | "openfirst" | "batchmix" | "vectorsetspar" | "stalekl" | "ravelC"
-                       \* | "imapafter" | "stalestep" | "stalefunvec" | "stalewrap"
+                       \* | "imapafter" | "stalestep" | "stalefunvec" | "stalewrap" | "batchfast"
           Emit
 
 VARIABLES c,        \* configuration record (uniform shape, see Cfg)
@@ -69,8 +75,9 @@ VARIABLES c,        \* configuration record (uniform shape, see Cfg)
           trail,    \* operations applied so far
           indices,  \* StepExpansion: the partition computed at construction / by the grid setter (sequence over steps of node sets)
           c0,       \* seq: the configuration the object was constructed with
-          cache     \* seq: what the object remembered at first use (see EmptyCache)
-vars == <<c, mode, rep, origin, par, vec, val, trail, indices, c0, cache>>
+          cache,    \* seq: what the object remembered at first use (see EmptyCache)
+          shp       \* conv: shape of the array the object holds (Samples: per-sample shape, then the number of samples)
+vars == <<c, mode, rep, origin, par, vec, val, trail, indices, c0, cache, shp>>
 
 Cfg(kind, cls, n, r, cc, m, n2, s, x0, len, proj) ==
     [kind |-> kind, cls |-> cls, n |-> n, r |-> r, cc |-> cc, m |-> m, n2 |-> n2, s |-> s, x0 |-> x0, len |-> len, proj |-> proj,
@@ -285,6 +292,27 @@ BatchReshape(k, M, W) ==       \* M[a][w];  result T[i][j][w]
         src(fl) == CHOOSE aw \in (1..ParDim(k)) \X (1..W) : FlatIn(k, Order(k), aw[1], aw[2], W) = fl
     IN F([i \in 1..k.r |-> [j \in 1..k.cc |-> [w \in 1..W |->
             LET aw == src(FlatOut(k, ordOut, i, j, w, W)) IN M[aw[1]][aw[2]]]]])
+\* back (Continuous2D: reshape((par_dim, -1)), C order): stacked functions T[i][j][w] -> matrix M[a][w]
+BatchRavel(k, T, W) ==
+    LET dst(fl) == CHOOSE ijw \in (1..k.r) \X (1..k.cc) \X (1..W) : FlatOut(k, "C", ijw[1], ijw[2], ijw[3], W) = fl
+    IN F([a \in 1..ParDim(k) |-> [w \in 1..W |->
+            LET ijw == dst(FlatIn(k, "C", a, w, W)) IN T[ijw[1]][ijw[2]][ijw[3]]]])
+
+\* ---- batch widths ----------------------------------------------------------------------------------------------
+\* Every batch facet runs with 1, 2 and 3 columns.  The geometry maps return the batch axis only for more than one
+\* column ("squeeze to return a single function if only one parameter vector was given"); a sample set keeps it.
+MaxW   == 3
+Widths == 1..MaxW
+Squeezed(sh, W)  == IF W = 1 THEN sh ELSE sh \o <<W>>
+\* which maps do so: par2fun of the reshaping geometries (2-D functions) and of the expansions; fun2par of Continuous2D
+\* and of the expansions.  The identity maps (Continuous1D, Discrete, visual-only images) return what they are given; a
+\* MappedGeometry applies its entry-wise maps to what the wrapped geometry returns.  Image2D.fun2par of stacked images:
+\* the specification is silent (<<>>).
+P2FSqueezes(k) == Is2D(k) \/ k.kind \in {"kl", "step"}
+MapFunShape(k, W) == IF P2FSqueezes(k) THEN Squeezed(FunShape(k), W) ELSE FunShape(k) \o <<W>>
+MapParShape(k, W) == IF k.kind \in {"kl", "step"} \/ k.cls = "Continuous2D" THEN Squeezed(<<ParDim(k)>>, W)
+                     ELSE IF Is2D(k) THEN <<>> ELSE <<ParDim(k), W>>
+SqueezeLast(k, T) == F([i \in 1..k.r |-> [j \in 1..k.cc |-> T[i][j][1]]])      \* T[i][j][w] holding one column
 
 \* ---- properties of the maps (mode "maps") ------------------------------------------------------------------
 Bijection(k) ==
@@ -306,10 +334,15 @@ Idempotent(k) ==
 
 Columnwise(k) ==
     (k.kind = "image" /\ Is2D(k) /\ ~IsMapped(k)) =>
-        \A W \in {2, 3} :
+        \A W \in Widths :
             LET M == F([a \in 1..ParDim(k) |-> [w \in 1..W |-> P0(k, w)[a]]])
                 T == BatchReshape(k, M, W)
-            IN \A w \in 1..W : \A i \in 1..k.r : \A j \in 1..k.cc : T[i][j][w] = P2F(k, P0(k, w))[i][j]
+            IN /\ \A w \in 1..W : \A i \in 1..k.r : \A j \in 1..k.cc : T[i][j][w] = P2F(k, P0(k, w))[i][j]
+               \* one column: without its batch axis the result is the function of that column
+               /\ (W = 1 => SqueezeLast(k, T) = P2F(k, P0(k, 1)))
+               \* stacked functions back to a matrix of columns (the geometry whose fun2par documents multiple functions)
+               /\ (k.cls = "Continuous2D" =>
+                      LET B == BatchRavel(k, T, W) IN \A w \in 1..W : \A a \in 1..ParDim(k) : B[a][w] = F2P(k, P2F(k, P0(k, w)))[a])
 
 ShapeOf(k, v, twoD) == IF twoD THEN <<Len(v), Len(v[1])>> ELSE <<Len(v)>>
 Shapes(k) ==
@@ -346,6 +379,14 @@ MapsRec(k) ==
      f0 |-> IF Tagged(k) THEN <<>> ELSE F0(k, 1),
      p2f |-> IF IsMapped(k) /\ ~Tagged(k)
              THEN F([q \in 1..(ParDim(k) + 1) |-> P2F(k, IF q <= ParDim(k) THEN Unit(ParDim(k), q) ELSE P0(k, 1))]) ELSE <<>>,
+     \* batches: par2fun of column w of the parameter batch P0 (a batch of W columns holds the first W), and for every
+     \* width the shapes of a sample set of Ns = W samples in its three forms (fun_is_vec: function values that are
+     \* vectors) and the shape a geometry map gives a W-column input when it removes the batch axis of one column
+     bcols  |-> F([w \in 1..MaxW |-> P2F(k, P0(k, w))]),
+     bshape |-> F([W \in 1..MaxW |->
+                    [ns |-> W, par |-> <<ParDim(k), W>>, fun |-> FunShape(k) \o <<W>>,
+                     vec |-> IF HasVec(k) THEN <<FunvecDim(k), W>> ELSE <<>>, fun_is_vec |-> ~Is2D(k),
+                     map_fun |-> MapFunShape(k, W), map_par |-> MapParShape(k, W)]]),
      f2p |-> IF k.kind = "step" THEN <<>> ELSE F2P(k, F0(k, 1)),
      f2p_mean |-> IF k.kind = "step" THEN F2P(StepProj(k, "mean"), F0(k, 1)) ELSE <<>>,
      f2p_min  |-> IF k.kind = "step" THEN F2P(StepProj(k, "min"), F0(k, 1)) ELSE <<>>,
@@ -371,17 +412,27 @@ MappedProjectionInv == mode = "maps" /\ IsMapped(c) /\ c.kind = "step" /\ c.maps
 
 \* ---- the conversion automaton (mode "conv") ---------------------------------------------------------------------
 Fun1D(k) == ~Is2D(k)
-BatchW == 2
 MapCols(op(_), v) == F([w \in 1..Len(v) |-> op(v[w])])
+
+\* shape of ONE value in the form the flags name, and of the array an object holds
+PerShape(k, p, v) == IF p THEN <<ParDim(k)>> ELSE IF v /\ Is2D(k) THEN <<FunvecDim(k)>> ELSE FunShape(k)
+Ns == shp[Len(shp)]                                                    \* Samples.Ns: the length of the last axis
+\* what a conversion to values of shape `per` allocates: Samples: per + (Ns,), filled sample by sample.
+\* Deviation "batchfast": for the reshaping geometries the whole array is handed to the geometry map ("it acts
+\* column-wise on a matrix of columns"), which removes the batch axis of one column
+ConvShape(per) == IF rep = "array" THEN per
+                  ELSE IF Dev = "batchfast" /\ P2FSqueezes(c) THEN Squeezed(per, Ns) ELSE per \o <<Ns>>
 
 \* Samples.funvals / vector / parameters and CUQIarray.funvals / parameters, one value at a time (per-sample loops)
 Funvals ==
     /\ mode = "conv" /\ Len(trail) < MaxOps
     /\ IF ~par /\ (~vec \/ rep = "array")
-       THEN UNCHANGED <<par, vec, val>>                                        \* already function values
+       THEN UNCHANGED <<par, vec, val, shp>>                                   \* already function values
        ELSE /\ val' = IF par THEN MapCols(LAMBDA x : P2F(c, x), val) ELSE MapCols(LAMBDA x : V2F(c, x), val)
             /\ par' = FALSE
-            /\ vec' = Fun1D(c)
+            /\ shp' = ConvShape(FunShape(c))
+            \* Samples: "vector" is read off the rank of the new array (at most one axis besides the samples)
+            /\ vec' = IF rep = "samples" THEN Len(shp') <= 2 ELSE Fun1D(c)
     /\ trail' = Append(trail, "funvals")
     /\ UNCHANGED <<c, mode, rep, origin, indices, c0, cache>>
 
@@ -389,8 +440,9 @@ Vector ==
     /\ mode = "conv" /\ Len(trail) < MaxOps /\ rep = "samples"
     /\ (vec \/ par \/ HasVec(c))
     /\ IF vec \/ par
-       THEN UNCHANGED <<par, vec, val>>
+       THEN UNCHANGED <<par, vec, val, shp>>
        ELSE /\ val' = MapCols(LAMBDA x : F2V(c, x), val)
+            /\ shp' = ConvShape(<<FunvecDim(c)>>)
             /\ vec' = TRUE
             /\ par' = (Dev = "vectorsetspar")
     /\ trail' = Append(trail, "vector")
@@ -399,10 +451,11 @@ Vector ==
 Parameters ==
     /\ mode = "conv" /\ Len(trail) < MaxOps
     /\ IF par
-       THEN UNCHANGED <<par, vec, val>>
+       THEN UNCHANGED <<par, vec, val, shp>>
        ELSE /\ val' = IF vec /\ rep = "samples" /\ ~Fun1D(c)
                       THEN MapCols(LAMBDA x : F2P(c, V2F(c, x)), val)
                       ELSE MapCols(LAMBDA x : F2P(c, x), val)
+            /\ shp' = ConvShape(<<ParDim(c)>>)
             /\ par' = TRUE /\ vec' = TRUE
     /\ trail' = Append(trail, "parameters")
     /\ UNCHANGED <<c, mode, rep, origin, indices, c0, cache>>
@@ -433,7 +486,7 @@ SeqUse(w) ==
     /\ cache' = [funvec |-> IF w = "shape" /\ HasVec(c) /\ cache.funvec = <<>> THEN <<FunvecDim(c)>> ELSE cache.funvec,
                  wfun   |-> IF w \in {"shape", "conv"} /\ IsMapped(c) /\ cache.wfun = <<>> THEN FunShape(c) ELSE cache.wfun]
     /\ trail' = Append(trail, [op |-> "use", what |-> w, c |-> c])
-    /\ UNCHANGED <<c, mode, rep, origin, par, vec, val, indices, c0>>
+    /\ UNCHANGED <<c, mode, rep, origin, par, vec, val, indices, c0, shp>>
 SeqSet(t) ==
     /\ mode = "seq" /\ Len(trail) < MaxSeq
     /\ c' = t
@@ -442,7 +495,7 @@ SeqSet(t) ==
     /\ cache' = [funvec |-> IF Dev = "stalefunvec" THEN cache.funvec ELSE <<>>,
                  wfun   |-> IF Dev = "stalewrap" THEN cache.wfun ELSE <<>>]
     /\ trail' = Append(trail, [op |-> "set", what |-> SetterOf(t), c |-> t])
-    /\ UNCHANGED <<mode, rep, origin, par, vec, val, c0>>
+    /\ UNCHANGED <<mode, rep, origin, par, vec, val, c0, shp>>
 SeqNext == (\E w \in SeqUses : SeqUse(w)) \/ (mode = "seq" /\ \E t \in SeqTargets(c) : SeqSet(t))
 
 \* the object answers like a freshly constructed geometry with the current settings
@@ -456,15 +509,17 @@ SeqEmit == mode = "seq" =>
         ((Emit /\ Len(trail) = MaxSeq) => PrintT("@@CASE " \o ToJson([kind |-> "seq", c0 |-> c0, c |-> c, trail |-> trail]) \o " @@END"))
 
 InitMaps == /\ mode = "maps" /\ c \in MapConfigs
-            /\ rep = "none" /\ origin = "none" /\ par = TRUE /\ vec = TRUE /\ val = <<>> /\ trail = <<>>
+            /\ rep = "none" /\ origin = "none" /\ par = TRUE /\ vec = TRUE /\ val = <<>> /\ trail = <<>> /\ shp = <<>>
 InitSeq  == /\ mode = "seq" /\ MaxSeq > 0 /\ c \in SeqConfigs
-            /\ rep = "none" /\ origin = "none" /\ par = TRUE /\ vec = TRUE /\ val = <<>> /\ trail = <<>>
+            /\ rep = "none" /\ origin = "none" /\ par = TRUE /\ vec = TRUE /\ val = <<>> /\ trail = <<>> /\ shp = <<>>
 InitConv == /\ mode = "conv" /\ c \in ConvConfigs
             /\ rep \in {"samples", "array"} /\ origin \in {"par", "fun"}
             /\ par = (origin = "par")
             /\ vec = (origin = "par" \/ (rep = "samples" /\ Fun1D(c)) \/ (rep = "array" /\ Fun1D(c)))
-            /\ LET W == IF rep = "samples" THEN BatchW ELSE 1
-               IN val = IF origin = "par" THEN [w \in 1..W |-> P0(c, w)] ELSE [w \in 1..W |-> F0(c, w)]
+            \* a sample set of Ns = 1, 2 or 3 samples; an array holds one value (no batch axis)
+            /\ \E W \in (IF rep = "samples" THEN Widths ELSE {1}) :
+                 /\ val = IF origin = "par" THEN [w \in 1..W |-> P0(c, w)] ELSE [w \in 1..W |-> F0(c, w)]
+                 /\ shp = IF rep = "samples" THEN PerShape(c, par, vec) \o <<W>> ELSE PerShape(c, par, vec)
             /\ trail = <<>>
 Init == (InitMaps \/ InitConv \/ InitSeq) /\ indices = ComputeIndices(c) /\ c0 = c /\ cache = EmptyCache
 Next == Funvals \/ Vector \/ Parameters \/ SeqNext
@@ -483,8 +538,16 @@ Canon(w) ==
     IN IF par THEN p0 ELSE IF vec /\ ~Fun1D(c) THEN F2V(c, f0) ELSE f0
 Lossless == mode = "conv" => \A w \in 1..Len(val) : val[w] = Canon(w)
 
+\* the array of a sample set is the per-sample shape of its form followed by the number of samples, for EVERY number of
+\* samples (one sample: a last axis of length 1, Ns = 1); the vector flag of function values agrees with its rank
+SamplesShape == mode = "conv" =>
+    /\ shp = IF rep = "samples" THEN PerShape(c, par, vec) \o <<Len(val)>> ELSE PerShape(c, par, vec)
+    /\ (rep = "samples" => /\ Ns = Len(val)
+                           /\ (~par => (vec <=> Len(shp) <= 2)))
+
 Conv ==
     mode = "conv" =>
         (Emit => PrintT("@@CASE " \o ToJson([kind |-> "conv", c |-> c, rep |-> rep, origin |-> origin, trail |-> trail,
-                                             par |-> par, vec |-> vec, val |-> val]) \o " @@END"))
+                                             par |-> par, vec |-> vec, val |-> val,
+                                             shape |-> shp, ns |-> Len(val)]) \o " @@END"))
 =============================================================================
